@@ -347,18 +347,75 @@ pub struct H2ServerConn {
 }
 
 /// one round of the HTTP/2 auto-responder on one connection
-fn h2_serve(conn: &mut Conn, h2: &mut super::h2::Endpoint, answered: &mut std::collections::BTreeSet<u32>, pending: &mut Vec<(u32, Vec<u8>, usize)>, now: u64) -> bool {
+fn h2_serve(conn: &mut Conn, h2: &mut super::h2::Endpoint, answered: &mut std::collections::BTreeSet<u32>, pending: &mut Vec<(u32, Vec<u8>, usize)>, now: u64, conn_index: usize) -> bool {
     let mut progressed = conn.pump_read(now);
     let auto = h2.receive(&conn.rx, now);
     conn.tx.extend_from_slice(&auto);
     let ready: Vec<u32> = h2.streams.iter().filter(|(id, st)| st.end_stream && !st.headers.is_empty() && !answered.contains(id)).map(|(id, _)| *id).collect();
     for id in ready {
         answered.insert(id);
+        // after its GOAWAY a server takes nothing above the stream it named
+        if h2.goaway_sent.is_some_and(|last| id > last) {
+            continue;
+        }
         let path = h2.streams[&id].header(":path").unwrap_or("/").to_owned();
+        // ---- misbehaving-backend targets (one stream each; `<n>` = body bytes sent before the fault)
+        let arg = |prefix: &str| path.strip_prefix(prefix).and_then(|n| n.split('/').next()).and_then(|n| n.parse::<usize>().ok());
+        let sid = id.to_string();
+        let partial = |h2: &mut super::h2::Endpoint, conn: &mut Conn, n: usize| {
+            let hs = h2.encode_headers(id, &[(":status", "200"), ("content-length", "1000"), ("x-stream", &sid)], false, None);
+            conn.tx.extend_from_slice(&hs);
+            if n > 0 {
+                conn.tx.extend_from_slice(&super::h2::data(id, &super::h1::coded_body(9, 1000)[..n.min(1000)], false));
+                h2.consume_send_window(id, n.min(1000));
+            }
+        };
+        if path == "/stall" {
+            continue;
+        } else if path == "/garbage" {
+            conn.tx.extend_from_slice(b"HTTP/1.1 200 OK\r\nContent-Length: 2\r\n\r\nok this is not an HTTP/2 frame at all.......");
+            progressed = true;
+            continue;
+        } else if path == "/close-before" {
+            conn.pump_write();
+            conn.close();
+            return true;
+        } else if let Some(code) = arg("/rst/") {
+            conn.tx.extend_from_slice(&super::h2::rst_stream(id, code as u32));
+            progressed = true;
+            continue;
+        } else if let Some(n) = arg("/rst-mid/") {
+            partial(h2, conn, n);
+            conn.tx.extend_from_slice(&super::h2::rst_stream(id, 2));
+            progressed = true;
+            continue;
+        } else if let Some(n) = arg("/close-mid/") {
+            partial(h2, conn, n);
+            conn.pump_write();
+            conn.close();
+            return true;
+        } else if let Some(n) = arg("/short/") {
+            // content-length 1000, n bytes, END_STREAM
+            let hs = h2.encode_headers(id, &[(":status", "200"), ("content-length", "1000"), ("x-stream", &sid)], false, None);
+            conn.tx.extend_from_slice(&hs);
+            conn.tx.extend_from_slice(&super::h2::data(id, &super::h1::coded_body(9, 1000)[..n.min(1000)], true));
+            progressed = true;
+            continue;
+        } else if path.starts_with("/goaway-refuse-once") && conn_index == 0 {
+            // this connection processed nothing from this stream on: a retry elsewhere is safe
+            conn.tx.extend_from_slice(&super::h2::goaway(id.saturating_sub(2), 0));
+            h2.goaway_sent = Some(id.saturating_sub(2));
+            progressed = true;
+            continue;
+        } else if path.starts_with("/goaway-then-answer") {
+            // graceful shutdown: this stream is the last one that will be answered
+            conn.tx.extend_from_slice(&super::h2::goaway(id, 0));
+            h2.goaway_sent = Some(id);
+        }
         // `/nolen/<n>`: no content-length; `/nolenpad/<n>`: in addition every DATA frame is
         // preceded by an empty DATA frame and by a DATA frame made of padding only
         let nolen = path.strip_prefix("/nolen/").or_else(|| path.strip_prefix("/nolenpad/")).and_then(|n| n.parse::<usize>().ok());
-        let size = path.strip_prefix("/size/").and_then(|n| n.parse::<usize>().ok()).or(nolen);
+        let size = path.strip_prefix("/size/").and_then(|n| n.parse::<usize>().ok()).or(nolen).or(arg("/goaway-then-answer/")).or(arg("/goaway-refuse-once/"));
         if path.starts_with("/nolenpad/") {
             h2.pad_streams.insert(id);
         }
@@ -367,7 +424,6 @@ fn h2_serve(conn: &mut Conn, h2: &mut super::h2::Endpoint, answered: &mut std::c
             None => b"ok".to_vec(),
         };
         let len = body.len().to_string();
-        let sid = id.to_string();
         let hs = if nolen.is_some() {
             h2.encode_headers(id, &[(":status", "200"), ("x-stream", &sid)], body.is_empty(), None)
         } else {
@@ -667,10 +723,10 @@ impl Peer {
                         }
                     }
                     if let Some(h2) = self.h2.as_mut() {
-                        progressed |= h2_serve(&mut self.conn, h2, &mut self.h2_answered, &mut self.h2_pending, ctx.now_ns);
+                        progressed |= h2_serve(&mut self.conn, h2, &mut self.h2_answered, &mut self.h2_pending, ctx.now_ns, 0);
                     }
-                    for c in self.h2_more.iter_mut() {
-                        progressed |= h2_serve(&mut c.conn, &mut c.h2, &mut c.answered, &mut c.pending, ctx.now_ns);
+                    for (ci, c) in self.h2_more.iter_mut().enumerate() {
+                        progressed |= h2_serve(&mut c.conn, &mut c.h2, &mut c.answered, &mut c.pending, ctx.now_ns, ci + 1);
                     }
                     break;
                 }
